@@ -174,7 +174,9 @@ def one_solve(dfols, prob, kw, state, maxfun):
             soln = core.with_alarm(30, dfols.solve, f, x0, maxfun=mf, rhoend=re_, do_logging=False, **kw2)
             res = (np.asarray(soln.x).tobytes() if soln.x is not None else None, float(soln.obj) if soln.obj is not None else None,
                    int(soln.nf), int(soln.nx), int(soln.flag), str(soln.msg),
-                   None if soln.jacobian is None else np.asarray(soln.jacobian).tobytes())
+                   None if soln.jacobian is None else np.asarray(soln.jacobian).tobytes(),
+                   None if getattr(soln, "diagnostic_info", None) is None else
+                   (tuple(soln.diagnostic_info.shape), float(np.nansum(soln.diagnostic_info["delta"].to_numpy(dtype=float)))))
         except ValueError as e:
             if "read-only" in str(e):
                 mut.append("solve tried to write into a read-only caller array: %s" % e)
@@ -200,6 +202,10 @@ SPECIALS = [
     ("cubic-slow-progress", lambda x: np.array([1e3, x[0] ** 3]), np.array([1.0]), {"maxfun": 100, "rhoend": 1e-8}),
     ("rosenbrock-slow-limit", lambda x: np.array([10.0 * (x[1] - x[0] ** 2), 1.0 - x[0]]), np.array([-1.2, 1.0]),
      {"maxfun": 100, "rhoend": 1e-8, "user_params": {"slow.max_slow_iters": 5}}),
+    # the diagnostic table is part of the result: rows of EARLIER solve() calls must not reappear in it (seeded C19_12 shared the
+    # column lists between all DiagnosticInfo objects of a process)
+    ("rosenbrock-diagnostic-table", lambda x: np.array([10.0 * (x[1] - x[0] ** 2), 1.0 - x[0]]), np.array([-1.2, 1.0]),
+     {"maxfun": 60, "rhoend": 1e-6, "user_params": {"logging.save_diagnostic_info": True}}),
 ]
 
 
